@@ -37,12 +37,13 @@ class Ob:
     """One proof obligation = one CBMC query family over a unit entry."""
     def __init__(self, oid, unit, entry, desc, unwind, core=True, tiers=('quick', 'thorough'), param=0, timeout=600,
                  mem_gb=8, functions=None, bounds='', assumptions=None, stubs=None, extra_flags=None, unwindset=None,
-                 backend=None, site=None, no_checks=False):
+                 backend=None, site=None, no_checks=False, unwind_fn=None):
         self.oid = oid; self.unit = unit; self.entry = entry; self.desc = desc; self.unwind = unwind; self.core = core
         self.tiers = tiers; self.param = param; self.timeout = timeout; self.mem_gb = mem_gb
         self.functions = functions or []; self.bounds = bounds; self.assumptions = assumptions or []
         self.stubs = stubs or []; self.extra_flags = extra_flags or []; self.unwindset = unwindset
         self.backend = backend; self.site = site or ''; self.no_checks = no_checks
+        self.unwind_fn = unwind_fn or {}    # {regex on function name: bound} -> unwindset for every loop of matching functions
         self.result = None
 
 def log(msg):
@@ -192,10 +193,25 @@ def run_native(u, exe, entry, param, vec, seed=1, keepgoing=False, tag='v'):
     rc, out, _, _ = run(cmd, cwd=u.dir, timeout=120, env=env)
     return rc, out.strip()
 
+_loops_lock = threading.Lock()
+def unit_loops(u):
+    """loop identifiers of the unit's generated C (cached)"""
+    with _loops_lock:
+        if getattr(u, '_loops', None) is None:
+            rc, out, _, _ = run(['cbmc', os.path.join(u.dir, 'gen.c'), os.path.join(TOOLS, 'cbmc_rt.c'), '-I', TOOLS, '--show-loops'], cwd=u.dir, timeout=600)
+            u._loops = re.findall(r'^Loop (\S+):', out, re.M)
+        return u._loops
+
 def cbmc_cmd(u, ob, witness, disabled=()):
     cmd = ['cbmc', os.path.join(u.dir, 'gen.c'), os.path.join(TOOLS, 'cbmc_rt.c'), '-I', TOOLS, '--function', ob.entry,
            '-DVERIF_PARAM=%d' % ob.param, '--unwind', str(ob.unwind), '--trace', '--verbosity', '8']
-    if ob.unwindset: cmd += ['--unwindset', ob.unwindset]
+    uws = [ob.unwindset] if ob.unwindset else []
+    if ob.unwind_fn:
+        for lid in unit_loops(u):
+            fn = lid.rsplit('.', 1)[0]
+            for pat, bound in ob.unwind_fn.items():
+                if re.fullmatch(pat, fn): uws.append('%s:%d' % (lid, bound)); break
+    if uws: cmd += ['--unwindset', ','.join(uws)]
     if u.throw_ok: cmd += ['-DVERIF_THROW_OK']
     cmd += ['--object-bits', str(u.object_bits or 12)]
     if witness:
@@ -204,6 +220,7 @@ def cbmc_cmd(u, ob, witness, disabled=()):
         cmd += [c for c in CBMC_CHECKS if c not in disabled] + ob.extra_flags + ['--stop-on-fail']
         if ob.backend == 'cadical': cmd += ['--sat-solver', 'cadical']
         elif ob.backend == 'kissat': cmd += ['--external-sat-solver', 'kissat']
+        elif ob.backend == 'cvc5': cmd += ['--cvc5']       # SMT back end (term-level sharing helps float-heavy queries)
     return cmd
 
 def failed_props(out):
@@ -243,7 +260,8 @@ def check_ob(ob, seed, known):
             r['status'] = 'error'; r['detail'] = 'translation validation mismatch on vector %s seed %d: native rc=%s "%s" vs generated C rc=%s "%s"' % (vec[:32], sd, rc1, o1[-300:], rc2, o2[-300:])
             r['wall_s'] = time.time() - t0; return r
         tv += 1
-        if vec is wvec and sd == 0 and not o1.startswith('END'):
+        # (a witness that already fails a harness assertion natively is a counterexample candidate: let the query decide)
+        if vec is wvec and sd == 0 and not o1.startswith('END') and not o1.startswith('ASSERT-FAIL'):
             r['status'] = 'error'; r['detail'] = 'witness vector does not reach the end natively: "%s"' % o1[-300:]; r['wall_s'] = time.time() - t0; return r
     r['tv_vectors'] = tv
     # --- the query.  LLVM may speculate an arithmetic instruction whose out-of-range result is unused (poison, not UB in the
